@@ -1,7 +1,7 @@
 CONSTANTS
   Labels <- LabelsACStar
   Pool <- Pool2
-  MaxR = 2
+  MaxR = 3
   MaxC = 3
   Perms = "some"
 INIT Init
